@@ -82,6 +82,9 @@ type Kernel struct {
 
 	stallIvls    []ivl
 	Strict       bool
+	opIssued     map[int]bool
+	stallCount   []int
+	stallFired   []bool
 	Free         bool          // free-running mode (race pass): no driver steps, no harness synchronisation on library paths
 	doneCh       chan struct{} // closed by Finish in free mode
 	Inspecting   atomic.Bool // set while the driver's inspector calls library accessors: no parks
@@ -209,6 +212,21 @@ func (k *Kernel) At(at int64, key string, run func()) {
 	}
 }
 
+// OpIssued arms the stalls that wait for an operation (Stall.AfterOp).
+func (k *Kernel) OpIssued(id int) {
+	if k.Free || id == 0 {
+		return
+	}
+	k.mu.Lock()
+	if k.opIssued == nil {
+		k.opIssued = map[int]bool{}
+		k.stallCount = make([]int, len(k.Plan.Stalls))
+		k.stallFired = make([]bool, len(k.Plan.Stalls))
+	}
+	k.opIssued[id] = true
+	k.mu.Unlock()
+}
+
 func (k *Kernel) After(d int64, key string, run func()) { k.At(k.Now()+d, key, run) }
 
 func (k *Kernel) Violate(v *Violation) {
@@ -254,6 +272,18 @@ func (k *Kernel) Yield(class, ident string) {
 			break
 		}
 		st := &k.Plan.Stalls[i]
+		if st.AfterOp != 0 {
+			if !k.opIssued[st.AfterOp] || k.stallFired[i] || !matchStr(st.M.Class, class) || !matchStr(st.M.Args, ident) {
+				continue
+			}
+			k.stallCount[i]++
+			if st.M.Nth == 0 || st.M.Nth == k.stallCount[i] {
+				k.stallFired[i] = true
+				park = st.ParkNS
+				break
+			}
+			continue
+		}
 		if matchStr(st.M.Class, class) && matchStr(st.M.Args, ident) && (st.M.Nth == 0 || st.M.Nth == n) {
 			park = st.ParkNS
 			break
